@@ -290,6 +290,97 @@ def generate():
                 vs = [("A", "tuple", [], plain_fields("tuple", 1))]
                 vs.insert(vpos, ("B", shape, [], with_attr(plain_fields(shape, 1), 0, fa)))
                 yield ("sole-field-attribute-malformed", classes, item("enum", "E", tattrs, vs))
+    # ---- error paths reached by no other clause (found with bin/coverage): per trait, at type level and at variant level
+    ANY = {"incorrectFormat", "badValue", "parameterReset", "reuseTrait", "traitNotUsed", "unsupportedTrait", "incorrectPlace"}
+    for t in ["Debug", "Clone", "Copy", "PartialEq", "Eq", "PartialOrd", "Ord", "Hash", "Default", "Deref", "DerefMut", "Into"]:
+        educed = {"Copy": "Clone, Copy", "Eq": "PartialEq, Eq", "DerefMut": "Deref, DerefMut", "Into": "Into(u8)"}.get(t, t)
+        one = t in ("Deref", "DerefMut", "Into")
+        def host(meta, kind="struct"):
+            metas = [m.strip() for m in educed.split(",")]
+            metas = [meta if m.split("(")[0] == t else m for m in metas]
+            tattrs = ["#[educe(%s)]" % ", ".join(metas)]
+            if kind == "struct":
+                return item("struct", "S", tattrs, [("", "tuple", [], plain_fields("tuple", 1 if one else 2))])
+            return item("enum", "E", tattrs, [("A", "named", ["#[educe(Default)]"] if t == "Default" else [], plain_fields("named", 1 if one else 2))])
+        for meta in ["%s = 1" % t, "%s(zzz)" % t, "%s(zzz = 1)" % t, "%s(zzz(1))" % t, "%s = \"x\"" % t, "%s(1)" % t]:
+            if (t == "Into" and meta in ("Into(zzz)", "Into(1)")) or (t == "Debug" and meta == 'Debug = "x"'):
+                continue          # a target type called zzz / a type-level name: valid requests
+            for kind in ("struct", "enum"):
+                yield ("type-level-form", ANY, host(meta, kind))
+        if t not in ("Deref", "DerefMut", "Into"):
+            for b in ["bound(T: Copy), bound(T: Copy)", "bound = false, bound(*)", 'bound = "T: Copy", bound = true']:
+                yield ("parameter-twice", {"parameterReset"}, item("struct", "S", ["#[educe(%s)]" % educed.replace(t, "%s(%s)" % (t, b), 1) if t not in ("Copy", "Eq") else "#[educe(%s(%s))]" % (t, b)],
+                                                                   [("", "tuple", [], plain_fields("tuple", 2, "T"))], "<T>"))
+        # at a variant: unknown trait, a trait that is not educed, the trait twice
+        for va in ["#[educe(Zzz)]", "#[educe(%s)]" % ("Hash" if t != "Hash" else "Debug"), "#[educe(a::b)]"]:
+            vs = [("A", "tuple", ["#[educe(Default)]"] if t == "Default" else [], plain_fields("tuple", 1)), ("B", "named", [va], plain_fields("named", 1))]
+            yield ("variant-attribute-of-other-trait", {"unsupportedTrait", "traitNotUsed"}, item("enum", "E", ["#[educe(%s)]" % educed], vs))
+        if t in ("Debug", "Default"):
+            for va in ["#[educe(%s, %s)]" % (t, t), "#[educe(%s)] #[educe(%s)]" % (t, t)]:
+                vs = [("A", "tuple", [], plain_fields("tuple", 1)), ("B", "named", [va], plain_fields("named", 1))]
+                yield ("trait-twice-at-variant", {"reuseTrait", "multipleDefaultVariants"}, item("enum", "E", ["#[educe(%s)]" % educed], vs))
+    # field-level value forms of the ordering parameters
+    for t in ["Ord", "PartialOrd"]:
+        for a in ["rank = x", "rank(x)", "rank = 1.5", "rank", "rank()", "method", "method = 1", "method()", "zzz", "zzz = 1", "ignore = 3", "ignore(x)", "rank = \"x\"", "rank(1, 2)"]:
+            for label, mk, shape in struct_and_enum_hosts(["#[educe(%s)]" % t]):
+                yield ("field-parameter-form", ANY, mk(with_attr(plain_fields(shape, 2), 1, "#[educe(%s(%s))]" % (t, a))))
+    for t, a in [("PartialEq", "method"), ("PartialEq", "method = 1"), ("Hash", "method()"), ("Hash", "zzz"), ("Debug", "name = 1"), ("Debug", "name()"), ("Clone", "method"), ("Default", "expression"),
+                 ("PartialEq", "bound = 3"), ("Debug", "bound = 3"), ("Clone", "bound(T)")]:
+        if "bound" in a:
+            yield ("field-parameter-form", ANY, item("struct", "S", ["#[educe(%s(%s))]" % (t, a)], [("", "tuple", [], plain_fields("tuple", 2, "T"))], "<T>"))
+        else:
+            for label, mk, shape in struct_and_enum_hosts(["#[educe(%s)]" % t]):
+                if t == "Default" and label.startswith("enum"):
+                    continue
+                if t == "Debug" and shape != "named":
+                    continue
+                yield ("field-parameter-form", ANY, mk(with_attr(plain_fields(shape, 2), 1, "#[educe(%s(%s))]" % (t, a))))
+    # DerefMut's own checks (Deref is satisfied)
+    yield ("deref-field-missing", {"noDerefField"}, item("enum", "E", ["#[educe(Deref, DerefMut)]"], [("A", "tuple", [], with_attr(plain_fields("tuple", 2), 0, "#[educe(Deref)]"))]))
+    yield ("deref-field-missing", {"noDerefField"}, item("struct", "S", ["#[educe(Deref, DerefMut)]"], [("", "named", [], with_attr(plain_fields("named", 3), 1, "#[educe(Deref)]"))]))
+    # ---- the same forms at a field, for every trait (one attribute, and the trait twice)
+    for t in ["Debug", "Clone", "Copy", "PartialEq", "Eq", "PartialOrd", "Ord", "Hash", "Default", "Deref", "DerefMut", "Into"]:
+        educed = {"Copy": "Clone, Copy", "Eq": "PartialEq, Eq", "DerefMut": "Deref, DerefMut", "Into": "Into(u8)"}.get(t, t)
+        forms = ["%s = 1" % t, "%s(zzz)" % t, "%s(zzz = 1)" % t, "%s(1)" % t, "%s()" % t, "%s, %s" % (t, t), "%s(ignore = 3)" % t, "%s(method = 1)" % t]
+        if t in ("Clone", "Copy", "Eq", "Deref", "DerefMut", "Into", "PartialOrd", "Ord", "Hash", "PartialEq"):
+            forms.append('%s = "x"' % t)
+        if t not in ("Deref", "DerefMut", "Default", "Into"):
+            forms.append(t)                       # the bare trait at a field means nothing (Deref/Default/Into: a marker)
+        for fm in forms:
+            if t == "Default" and fm == "Default = 1":
+                continue                          # the default expression `1`: valid
+            if fm == "%s()" % t and t not in ("Copy", "Deref", "DerefMut", "Into"):
+                continue                          # an empty parameter list sets nothing: valid where the trait takes parameters
+            if t == "Into" and fm in ("Into(zzz)", "Into(1)"):
+                continue
+            one = t in ("Deref", "DerefMut", "Into")
+            for shape in ("tuple", "named"):
+                fs = plain_fields(shape, 1 if one else 2)
+                fs = with_attr(fs, 0, "#[educe(%s)]" % fm)
+                if t == "DerefMut":
+                    fs = with_attr(fs, 0, "#[educe(Deref)]")
+                yield ("field-level-form", ANY, item("struct", "S", ["#[educe(%s)]" % educed], [("", shape, [], fs)]))
+                yield ("field-level-form", ANY, item("enum", "E", ["#[educe(%s)]" % educed], [("A", shape, ["#[educe(Default)]"] if t == "Default" else [], fs)]))
+    # ---- DerefMut educed alone (Deref written by hand): its own refusals are not shadowed by Deref's
+    for tattr in ["#[educe(DerefMut)]"]:
+        yield ("deref-unit-variant", {"unitVariant"}, item("enum", "E", [tattr], [("A", "tuple", [], plain_fields("tuple", 1)), ("B", "unit", [], [])]))
+        yield ("deref-field-missing", {"noDerefField"}, item("enum", "E", [tattr], [("A", "tuple", [], plain_fields("tuple", 2))]))
+        yield ("deref-field-missing", {"noDerefField"}, item("enum", "E", [tattr], [("A", "named", [], plain_fields("named", 1)), ("B", "named", [], plain_fields("named", 3))]))
+        yield ("deref-field-missing", {"noDerefField"}, item("struct", "S", [tattr], [("", "named", [], plain_fields("named", 2))]))
+        yield ("deref-field-missing", {"noDerefField"}, item("struct", "S", [tattr], [("", "unit", [], [])]))
+        for shape in ("tuple", "named"):
+            two = with_attr(with_attr(plain_fields(shape, 3), 0, "#[educe(DerefMut)]"), 2, "#[educe(DerefMut)]")
+            yield ("deref-field-twice", {"multipleDerefFields"}, item("struct", "S", [tattr], [("", shape, [], two)]))
+            yield ("deref-field-twice", {"multipleDerefFields"}, item("enum", "E", [tattr], [("A", "tuple", [], plain_fields("tuple", 1)), ("B", shape, [], two)]))
+        for fm in ["DerefMut = 1", "DerefMut(x)", "DerefMut()", "Zzz", "Deref", "DerefMut, DerefMut"]:
+            fs = with_attr(plain_fields("tuple", 1), 0, "#[educe(%s)]" % fm)
+            yield ("field-level-form", ANY, item("struct", "S", [tattr], [("", "tuple", [], fs)]))
+            yield ("field-level-form", ANY, item("enum", "E", [tattr], [("A", "tuple", [], fs)]))
+        for va in ["#[educe(DerefMut)]", "#[educe(Zzz)]", "#[educe(Deref)]"]:
+            yield ("variant-attribute-of-other-trait", ANY, item("enum", "E", [tattr], [("A", "tuple", [va], plain_fields("tuple", 1))]))
+        for meta in ["DerefMut = 1", "DerefMut(x)", "DerefMut()"]:
+            yield ("type-level-form", ANY, item("struct", "S", ["#[educe(%s)]" % meta], [("", "tuple", [], plain_fields("tuple", 1))]))
+        yield ("union-not-supported", {"notSupportUnion"}, item("union", "U", [tattr], [("", "named", [], plain_fields("named", 2))]))
     # union fields accept nothing for Debug / PartialEq / Hash / Clone
     for t, a in [("Debug(unsafe)", "Debug(ignore)"), ("Debug(unsafe)", "Debug(method(m))"), ("Debug(unsafe)", "Debug = x"), ("PartialEq(unsafe)", "PartialEq(ignore)"),
                  ("PartialEq(unsafe)", "PartialEq(method(m))"), ("Hash(unsafe)", "Hash(method(m))"), ("Hash(unsafe)", "Hash = false"), ("Clone", "Clone(method(m))"),
